@@ -26,20 +26,28 @@ func Workers() int {
 
 // bfsCheck registers a BFS-driven property.
 func bfsCheck(prop, driver string, mk func() Driver, quickDepth, thoroughDepth int, quickConf, thoroughConf int, extraAssume []string) {
+	bfsCheckT(prop, driver, func(string) func() Driver { return mk }, quickDepth, thoroughDepth, quickConf, thoroughConf, extraAssume)
+}
+
+// bfsCheckT is bfsCheck with a tier-dependent driver.
+func bfsCheckT(prop, driver string, mkT func(tier string) func() Driver, quickDepth, thoroughDepth int, quickConf, thoroughConf int, extraAssume []string) {
 	Registry[prop] = &Check{
 		Run: func(tier string, seed int64) int {
+			mk := mkT(tier)
 			o := Options{Property: prop, Tier: tier, Seed: seed, Workers: Workers(), Depth: quickDepth, ConfCap: quickConf, Deadline: 8 * time.Minute}
 			if tier == "thorough" {
 				o.Depth, o.ConfCap, o.Deadline = thoroughDepth, thoroughConf, 100*time.Minute
 			}
 			o.Depth = EnvInt("VERIF_DEPTH", o.Depth)
-			o.Params = map[string]any{"depth": o.Depth}
+			o.Params = map[string]any{"depth": o.Depth, "tier": tier}
 			kf := LoadFindings()
 			st := Explore(mk, o, kf)
 			Conformance(mk, st, o)
 			return Finish(mk, driver, st, o, nil, extraAssume)
 		},
 		Replay: func(rf *ReplayFile) int {
+			tier, _ := rf.Params["tier"].(string)
+			mk := mkT(tier)
 			v, names := ReplayOps(mk, rf.Ops)
 			for i, n := range names {
 				fmt.Printf("  %2d. %s\n", i+1, n)
@@ -74,5 +82,14 @@ func LoadReplay(path string) *ReplayFile {
 func init() {
 	bfsCheck("C01", "balance", func() Driver { return NewBalDriver("C01") }, 4, 6, 120, 1000, nil)
 	bfsCheck("C02", "balance-auth", func() Driver { return NewBalDriver("C02") }, 3, 5, 120, 1000, nil)
+	bfsCheck("C04", "container-registry", func() Driver { return NewCntDriver() }, 5, 7, 120, 1000, nil)
+	bfsCheck("C06", "netmap-tick", func() Driver { return NewTickDriver("C06") }, 5, 7, 120, 1000, nil)
+	bfsCheck("C07", "netmap-candidates", func() Driver { return NewTickDriver("C07") }, 12, 12, 120, 1000, nil)
+	bfsCheckT("C08", "netmap-history", func(tier string) func() Driver {
+		if tier == "thorough" {
+			return func() Driver { return NewSnapDriver([]int{0, 1, 2, 3, 4, 5, 6, 7, 8, 9, 10, 11, 12}, 30, 2) }
+		}
+		return func() Driver { return NewSnapDriver([]int{0, 1, 2, 3, 5, 9, 10, 11, 12}, 14, 2) }
+	}, 16, 32, 60, 300, nil)
 	bfsCheck("C09", "balance-locks", func() Driver { return NewBalDriver("C09") }, 5, 8, 120, 1000, nil)
 }
